@@ -1,9 +1,15 @@
 ENGINES = [
     {"name": "venv (E3)", "path": "/verif/engine/venv", "serves_properties": ["C01"], "kind_free_text": "scripted crypto/rand.Reader + seeded CPRNG: every random draw is a choice point; executions with 0,1,2 deviations (min/max/short/error) are enumerated"},
-    {"name": "vkit (E2)", "path": "/verif/engine/vkit", "serves_properties": ["C01", "C15"], "kind_free_text": "bounded exhaustive enumeration of inputs/alterations with stable case indices, sharding and measured coverage"},
+    {"name": "vkit (E2)", "path": "/verif/engine/vkit", "serves_properties": ["C01", "C15", "C19"], "kind_free_text": "bounded exhaustive enumeration of inputs/alterations with stable case indices, sharding and measured coverage"},
 ]
 NOT_BUILT_REASON = {}
 META = {
+    "C19": {
+        "engine": "vkit (E2)",
+        "technique": "exhaustive enumeration of small operand domains against brute-force references; scripted-reader enumeration of every candidate byte string for the prime generators",
+        "text": "ModInverse (n<2^9), ModPow (x,m<64,|y|<=8), Legendre vs Jacobi (odd p<2^11/2^12, a in [-p,2p]), Crt (coprime pa,pb<64), PrimeSqrt (primes<2^11/2^12), ModSqrt (<=3 factors from {4, small primes}), SumFourSquares (all n<2^16/2^20 + 2^k families), FastMod (all p<2^8/2^9 with x in [-4p^2,4p^2], aliased and not; all p<2^12 near the boundaries; convenient-prime moduli), RandomPrimeInRange and safeprime.Generate (every candidate byte string), ProbablySafePrime (x<2^16/2^18), Group.Exp (all exponents of all toy safe-prime groups) are enumerated completely.",
+        "note": "Trusted: math/big, int64 brute force. Large random operands and the Python cross-reference named in the quantifier are replaced by structured families; 4096-bit operands appear only in those families.",
+    },
     "C01": {
         "engine": "vkit (E2) + venv (E3)",
         "technique": "exhaustive alteration enumeration of honest proofs (fault enumeration) + environment-answer deviations, judged by a semantic oracle and an independent reference verifier",
